@@ -231,18 +231,119 @@ type guard struct {
 	k        int64 // on the safe edge g <= k
 	safeSucc int
 	pos      token.Pos
+	// unlessOpt: the bound holds on the safe edge unless this option is true (a boolean helper that
+	// answers "fits" at once when the quantity is not stored in the narrow form under that option)
+	unlessOpt string
 }
 
 // guardsOf finds upper-bound guards: branches on g > K (or equivalents) whose
 // violating edge leads only to an error return / panic.
 func guardsOf(p *Program, f *ssa.Function) []guard {
-	_, abortOnly := postDom(f, func(r *ssa.Return) bool {
-		if len(r.Results) == 0 {
-			return false
+	return guardsOfIn(p, f, nil, errorReturn)
+}
+
+// errorReturn: a return whose last result is a possibly non-nil error.
+func errorReturn(r *ssa.Return) bool {
+	if len(r.Results) == 0 {
+		return false
+	}
+	last := r.Results[len(r.Results)-1]
+	return isErrorType(last.Type()) && !isNilConst(last)
+}
+
+// optBypassCmp: cond is a call of a loop-free boolean helper with two returns: a constant under a
+// branch on an option, and a comparison of parameters and constants otherwise
+// ("func (c *creator) stepFits(n int32) bool { if *c.option.InnerPrefix { return true }; return n < limit }").
+// Returns the comparison with the arguments of the call substituted, the option, and the helper's
+// result when the option is true.
+func optBypassCmp(bf *builderFlow, cond ssa.Value) (token.Token, ssa.Value, ssa.Value, token.Pos, string, bool, bool) {
+	fail := func() (token.Token, ssa.Value, ssa.Value, token.Pos, string, bool, bool) {
+		return 0, nil, nil, token.NoPos, "", false, false
+	}
+	call, ok := cond.(*ssa.Call)
+	if !ok || bf == nil || bf.it == nil || call.Call.IsInvoke() {
+		return fail()
+	}
+	h := calleeOf(call)
+	if h == nil || !inAnalysed(h) || len(h.Blocks) != 3 || hasLoop(h) {
+		return fail()
+	}
+	iff, ok := lastInstr(h.Blocks[0]).(*ssa.If)
+	if !ok {
+		return fail()
+	}
+	name, negated, isOpt := bf.it.condOpt(iff.Cond)
+	if !isOpt {
+		return fail()
+	}
+	for _, in := range h.Blocks[0].Instrs {
+		switch in.(type) {
+		case *ssa.Store, *ssa.Call, *ssa.MapUpdate:
+			return fail()
 		}
-		last := r.Results[len(r.Results)-1]
-		return isErrorType(last.Type()) && !isNilConst(last)
-	})
+	}
+	var constRet, cmpRet *ssa.Return
+	var constSucc int
+	for i, sb := range h.Blocks[0].Succs {
+		ret, ok := lastInstr(sb).(*ssa.Return)
+		if !ok || len(ret.Results) != 1 {
+			return fail()
+		}
+		if _, isC := constBool(ret.Results[0]); isC {
+			constRet, constSucc = ret, i
+		} else {
+			cmpRet = ret
+		}
+	}
+	if constRet == nil || cmpRet == nil {
+		return fail()
+	}
+	// the constant must be returned on the edge taken when the option is true
+	trueEdge := 0
+	if negated {
+		trueEdge = 1
+	}
+	if constSucc != trueEdge {
+		return fail()
+	}
+	bo, ok := cmpRet.Results[0].(*ssa.BinOp)
+	if !ok {
+		return fail()
+	}
+	switch bo.Op {
+	case token.LSS, token.LEQ, token.GTR, token.GEQ:
+	default:
+		return fail()
+	}
+	bind := func(v ssa.Value) (ssa.Value, bool) {
+		for {
+			if cv, ok := v.(*ssa.Convert); ok {
+				v = cv.X
+				continue
+			}
+			break
+		}
+		if _, isK := v.(*ssa.Const); isK {
+			return v, true
+		}
+		for i, prm := range h.Params {
+			if v == ssa.Value(prm) && i < len(call.Call.Args) {
+				return call.Call.Args[i], true
+			}
+		}
+		return nil, false
+	}
+	a, ok1 := bind(bo.X)
+	b, ok2 := bind(bo.Y)
+	if !ok1 || !ok2 {
+		return fail()
+	}
+	cv, _ := constBool(constRet.Results[0])
+	return bo.Op, a, b, call.Pos(), strings.TrimPrefix(name, "opt:"), cv, true
+}
+
+func guardsOfIn(p *Program, f *ssa.Function, bf *builderFlow, isAbort func(*ssa.Return) bool) []guard {
+	_, abortOnly := postDom(f, isAbort)
 	var out []guard
 	e := newEval(p)
 	for _, b := range f.Blocks {
@@ -251,6 +352,10 @@ func guardsOf(p *Program, f *ssa.Function) []guard {
 			continue
 		}
 		op, ox, oy, cpos, ok := cmpOf(iff.Cond)
+		bypassOpt, bypassVal := "", false
+		if !ok {
+			op, ox, oy, cpos, bypassOpt, bypassVal, ok = optBypassCmp(bf, iff.Cond)
+		}
 		if !ok {
 			continue
 		}
@@ -280,7 +385,19 @@ func guardsOf(p *Program, f *ssa.Function) []guard {
 		if !abortOnly[b.Succs[badSucc].Index] {
 			continue
 		}
-		out = append(out, guard{iff: iff, g: g, k: k, safeSucc: 1 - badSucc, pos: cpos})
+		gd := guard{iff: iff, g: g, k: k, safeSucc: 1 - badSucc, pos: cpos}
+		if bypassOpt != "" {
+			// the helper's constant under the option: "true" goes to successor 0 of the caller's branch
+			constSucc := 1
+			if bypassVal {
+				constSucc = 0
+			}
+			if constSucc == gd.safeSucc {
+				gd.unlessOpt = bypassOpt // under the option the safe edge is taken without the bound
+			}
+			// otherwise the option leads to the failing edge: survivors satisfy the bound
+		}
+		out = append(out, gd)
 	}
 	return out
 }
@@ -357,10 +474,36 @@ func narrowingSites(p *Program, fns map[*ssa.Function]bool) []narrowSite {
 			if _, isConst := cv.X.(*ssa.Const); isConst {
 				return
 			}
-			out = append(out, narrowSite{cv: cv, fn: f, tw: tw, local: e.bits(cv.X) <= tw})
+			// a signed target holds one bit less of a non-negative quantity (int16 of 40000 is negative)
+			eff := tw
+			if b, ok := cv.Type().Underlying().(*types.Basic); ok && b.Info()&types.IsUnsigned == 0 {
+				eff = tw - 1
+			}
+			out = append(out, narrowSite{cv: cv, fn: f, tw: eff, local: e.bits(cv.X) <= eff || hasHighSibling(f, cv, tw)})
 		})
 	}
 	return out
+}
+
+// hasHighSibling: cv takes the low tw bits of x on purpose — the same function also converts x >> tw
+// to a type of the same width ("[]byte{byte(w >> 8), byte(w)}"): the pair stores 2*tw bits of x and the
+// obligation that nothing is lost lies on the sibling, which is a narrowing site of its own.
+func hasHighSibling(f *ssa.Function, cv *ssa.Convert, tw int) bool {
+	found := false
+	instrsOf(f, func(_ *ssa.BasicBlock, in ssa.Instruction) {
+		o, ok := in.(*ssa.Convert)
+		if !ok || o == cv || !types.Identical(o.Type(), cv.Type()) {
+			return
+		}
+		sh, ok := o.X.(*ssa.BinOp)
+		if !ok || sh.Op != token.SHR || sh.X != cv.X {
+			return
+		}
+		if k, ok := constInt(sh.Y); ok && int(k) == tw {
+			found = true
+		}
+	})
+	return found
 }
 
 // callChains enumerates static call chains (within package trie) from root to target.
@@ -423,6 +566,8 @@ func checkC08(p *Program, r *Report) {
 	checkRejectReasonsAs(p, r, "C08.accept")
 	// ---- never mis-indexed (shared with C01): an accepted input is decoded with the node sizes it was built with
 	checkBigZone(p, r, "C08.bigzone")
+	r.Explanation += " (align) wherever the position at which the builder cuts labels (bmtree.PathsOf/PathOf) is aligned by a constant mask, the mask clears at least log2(w) low bits for every label word size w that can reach the same call together with it (leaves of position and word size paired per phi edge and helper return): a 257-bit node is cut at whole bytes, as the readers address it."
+	checkCutAlignment(p, r, "C08.align")
 }
 
 // checkNarrowAs (C08.narrow; shared with the properties that promise lookups on whatever was accepted:
@@ -452,7 +597,7 @@ func checkNarrowAs(p *Program, r *Report, rule string, entry, F *ssa.Function) {
 		}
 	}
 	sites := narrowingSites(p, scope)
-	bf := newBuilderFlow(p)
+	bf := sharedBuilderFlow(p)
 	for i, s := range sites {
 		r.Func(shortFn(s.fn))
 		construct := fmt.Sprintf("narrowing to %s #%d in %s", s.cv.Type(), i+1, shortFn(s.fn))
@@ -476,7 +621,7 @@ func checkNarrowAs(p *Program, r *Report, rule string, entry, F *ssa.Function) {
 				if termBits(T, sw) <= s.tw {
 					continue
 				}
-				if why := guardedInRoot(p, bf, root, ch, s, T, max); why != "" {
+				if why := guardedInChain(p, bf, root, ch, s, T, max); why != "" {
 					bad = append(bad, fmt.Sprintf("via %s: operand %s %s", chainString(root, ch), abbreviate(T.String()), why))
 				}
 			}
@@ -516,14 +661,83 @@ func chainString(root *ssa.Function, ch []*ssa.Call) string {
 
 // guardedInRoot returns "" if the operand is bounded by a guard of the root
 // function on every path on which the conversion can execute.
-func guardedInRoot(p *Program, bf *builderFlow, root *ssa.Function, ch []*ssa.Call, s narrowSite, T *term, max int64) string {
+// chainAbort: the abort returns of frame k of a call chain (frame 0 = root, frame k = callee of
+// ch[k-1]): error returns, and — when the caller only branches on the boolean result of the call and
+// one of the two edges leads to nothing but the caller's own abort returns — returns of that constant.
+func chainAbort(root *ssa.Function, ch []*ssa.Call, k int) func(*ssa.Return) bool {
+	if k == 0 {
+		return errorReturn
+	}
+	prev := chainAbort(root, ch, k-1)
+	caller := root
+	if k > 1 {
+		caller = calleeOf(ch[k-2])
+	}
+	call := ch[k-1]
+	if caller == nil || !isBoolType(call.Type()) || call.Referrers() == nil {
+		return errorReturn
+	}
+	_, abortOnly := postDom(caller, prev)
+	found, val := false, false
+	for _, ref := range *call.Referrers() {
+		switch x := ref.(type) {
+		case *ssa.DebugRef:
+		case *ssa.If:
+			b := x.Block()
+			t, f := abortOnly[b.Succs[0].Index], abortOnly[b.Succs[1].Index]
+			if t == f || (found && t != val) {
+				return errorReturn
+			}
+			found, val = true, t
+		default:
+			return errorReturn
+		}
+	}
+	if !found {
+		return errorReturn
+	}
+	return func(r *ssa.Return) bool {
+		if errorReturn(r) {
+			return true
+		}
+		if len(r.Results) == 1 {
+			if cv, ok := constBool(r.Results[0]); ok && cv == val {
+				return true
+			}
+		}
+		return false
+	}
+}
+
+// guardedInChain: the operand is bounded by an error guard in some frame of the call chain: in the
+// root (on the term bound through all frames) or in an intermediate function (on the term bound
+// through the remaining frames), on every path to the onward call.
+func guardedInChain(p *Program, bf *builderFlow, root *ssa.Function, ch []*ssa.Call, s narrowSite, T *term, max int64) string {
+	why0 := guardedInFrame(p, bf, root, ch, s, T, max, errorReturn)
+	if why0 == "" {
+		return ""
+	}
+	for k := 1; k <= len(ch); k++ {
+		f := calleeOf(ch[k-1])
+		if f == nil || len(f.Blocks) == 0 {
+			break
+		}
+		Tk := bindFrames(p, s.cv.X, ch[k:])
+		if guardedInFrame(p, bf, f, ch[k:], s, Tk, max, chainAbort(root, ch, k)) == "" {
+			return ""
+		}
+	}
+	return why0
+}
+
+func guardedInFrame(p *Program, bf *builderFlow, root *ssa.Function, ch []*ssa.Call, s narrowSite, T *term, max int64, isAbort func(*ssa.Return) bool) string {
 	var site *ssa.BasicBlock
 	if len(ch) > 0 {
 		site = ch[0].Block()
 	} else {
 		site = s.cv.Block()
 	}
-	gs := guardsOf(p, root)
+	gs := guardsOfIn(p, root, bf, isAbort)
 	var cands []guard
 	for _, g := range gs {
 		if boundBy(T, g, max) {
@@ -571,6 +785,9 @@ func guardedInRoot(p *Program, bf *builderFlow, root *ssa.Function, ch []*ssa.Ca
 		}
 	}
 	for _, g := range cands {
+		if g.unlessOpt != "" && !neg[g.unlessOpt] {
+			continue // the bound is bypassed under an option that is not known false at the conversion
+		}
 		gb := g.iff.Block()
 		// edges that can only be taken when an option has the polarity opposite to the one
 		// under which the conversion executes are irrelevant
